@@ -185,6 +185,7 @@ UNITS = [
     ("program", "program {n8}\n{SPEC}\n{EXEC}\nend program {n8}", "fix one"),
     ("program_anon", "{SPEC}\n{EXEC}\nend", "fix"),
     ("subroutine", "subroutine {n8}({n7})\n{SPEC}\n{EXEC}\nend subroutine {n8}", "fix one"),
+    ("subroutine_bindc", "subroutine {n8}({n7}) bind(c, name='{s1}')\n{SPEC}\n{EXEC}\nend subroutine {n8}", ""),
     ("function", "function {n8}({n7}) result({n6})\n{SPEC}\n{EXEC}\nend function {n8}", "one"),
     ("function_typed", "integer function {n8}({n7})\n{SPEC}\n{EXEC}\n{n8} = 1\nend function", "fix one"),
     ("module", "module {n8}\n{SPEC}\ncontains\nsubroutine {n7}()\n{EXEC}\nend subroutine {n7}\nend module {n8}", "one"),
